@@ -1128,6 +1128,40 @@ STRUCT_FAMILIES = {
 }
 STRUCT_FACTORY = {"owner": "_oone()", "opt-owner": "_oone()", "owners": "_olist()", "opt-owners": "_olist()"}
 
+# date / time types (datetime.date ~ DateField, datetime.datetime ~ DateTime, datetime.time ~ TimeField): oracle only -
+# the Lean declaration type has no date fields
+DATE_PRELUDE = """
+import datetime
+from typedpy.extfields import DateField, DateTime, TimeField
+"""
+DATE_FAMILIES = {
+    "date": ["a: DateField", "a = DateField", "a: datetime.date", "a: DateField()", "a = DateField()", "a: Union[datetime.date]"],
+    "datetime": ["a: DateTime", "a = DateTime", "a: datetime.datetime", "a: DateTime()", "a = DateTime()"],
+    "time": ["a: TimeField", "a = TimeField", "a: datetime.time", "a: TimeField()", "a = TimeField()"],
+    "opt-date": ["a: AnyOf[DateField, None] #opt", "a = AnyOf[DateField, None] #opt", "a: Optional[datetime.date]",
+                 "a: datetime.date | None", "a: None | datetime.date", "a: Union[None, datetime.date]", "a: DateField | None #opt",
+                 "a: Optional[DateField]"],
+    "dates": ["a: Array[DateField]", "a = Array[DateField]", "a: list[datetime.date]", "a: List[datetime.date]",
+              "a: Array(items=DateField)", "a: Array[datetime.date]", "a: list[DateField]"],
+    "date-or-int": ["a: AnyOf[DateField, Integer]", "a: Union[datetime.date, int]", "a: datetime.date | int", "a: DateField | int",
+                    "a: DateField | Integer", "a = AnyOf[DateField, Integer]"],
+    "date-by-str": ["a: Map[String, DateField]", "a: dict[str, datetime.date]", "a: Dict[str, datetime.date]",
+                    "a = Map(items=[String, DateField])"],
+    "date-time-pair": ["a: Tuple[DateField, TimeField]", "a: tuple[datetime.date, datetime.time]",
+                       "a: typing.Tuple[datetime.date, datetime.time]", "a = Tuple(items=[DateField, TimeField])"],
+}
+
+# MUTABLE defaults (list / dict / set literals): "Got a mutable value as default. This is a bug" is raised on some paths only
+MUTABLE_FAMILIES = {
+    "list-default": ["a: Array = [1]", "a: list = [1]", "a: List = [1]", "a: Array() = [1]", "a = Array(default=[1])",
+                     "a: Array(default=[1])"],
+    "int-list-default": ["a: Array[Integer] = [1]", "a: list[int] = [1]", "a: List[int] = [1]",
+                         "a = Array(items=Integer, default=[1])", "a: Array(items=Integer, default=[1])"],
+    "empty-list-default": ["a: Array = []", "a: list = []", "a: List = []", "a = Array(default=[])"],
+    "map-default": ["a: Map = {'k': 1}", "a: dict = {'k': 1}", "a: Dict = {'k': 1}", "a: Map() = {'k': 1}",
+                    "a = Map(default={'k': 1})"],
+}
+
 
 def struct_cases(rng, tier):
     """Oracle-only stream (Structure classes are not in the modelled spelling grammar): fields whose type is a
@@ -1156,6 +1190,22 @@ def struct_cases(rng, tier):
                                      "site": "plain"})
             cases.append({"suite": "elab", "oracle_only": True, "family": fam, "factory": with_factory,
                           "variants": variants})
+    # date / time types and mutable defaults
+    dfams = sorted(DATE_FAMILIES)
+    if tier == "quick":
+        dfams = ["date", "opt-date"] + rng.sample([f for f in dfams if f not in ("date", "opt-date")], 2)
+    mfams = sorted(MUTABLE_FAMILIES) if tier != "quick" else ["list-default"] + rng.sample(sorted(MUTABLE_FAMILIES)[:-1] + ["map-default"], 1)
+    for kind, fams_, table, site_ in (("date", dfams, DATE_FAMILIES, "datetime"), ("mutable", mfams, MUTABLE_FAMILIES, "mutable-default")):
+        for fam in fams_:
+            variants = []
+            for sp in table[fam]:
+                opt = sp.endswith("#opt")
+                decl = sp.replace(" #opt", "")
+                for future in (False, True):
+                    variants.append({"future": future, "body": [decl, "b: str"] + (["_optional = ['a']"] if opt else []),
+                                     "site": site_})
+            cases.append({"suite": "elab", "oracle_only": True, "family": fam, "factory": False, "kind": kind,
+                          "variants": variants})
     return cases
 
 
@@ -1169,7 +1219,7 @@ def run_struct_case(case):
         modname = f"_verif_c13_smod_{_MOD_COUNTER[0]}"
         mod = types.ModuleType(modname)
         sys.modules[modname] = mod
-        src = (("from __future__ import annotations\n" if v["future"] else "") + PRELUDE + STRUCT_PRELUDE
+        src = (("from __future__ import annotations\n" if v["future"] else "") + PRELUDE + STRUCT_PRELUDE + DATE_PRELUDE
                + "\n\nclass K(Structure):\n" + "".join(f"    {l}\n" for l in v["body"]))
         res["src"] = "; ".join(v["body"]) + (" [future]" if v["future"] else "")
         for clear in getattr(typing, "_cleanups", []):
@@ -1181,6 +1231,14 @@ def run_struct_case(case):
             res["required"] = sorted(K._required)
             values = {"owner": Owner(name="x"), "dict": {"name": "x"}, "none": None, "int": 1, "str": "s",
                       "owners": [Owner(name="x"), Owner(name="y")], "empty": [], "ints": [1], "mixed": [Owner(name="x"), 1]}
+            if case.get("kind") == "date":
+                import datetime as _dt
+                d0, t0 = _dt.date(2020, 1, 2), _dt.time(3, 4, 5)
+                values = {"date": d0, "datetime": _dt.datetime(2020, 1, 2, 3, 4, 5), "time": t0, "iso": "2020-01-02",
+                          "isot": "03:04:05", "junk": "x", "int": 1, "none": None, "dates": [d0, d0], "empty": [],
+                          "mixed": [d0, 1], "map": {"k": d0}, "badmap": {"k": 1}, "pair": (d0, t0), "badpair": (t0, d0)}
+            elif case.get("kind") == "mutable":
+                values = {"ints": [1, 2], "empty": [], "none": None, "int": 1, "map": {"z": 2}, "strs": ["a"]}
             beh = {}
             for tag, val in list(values.items()) + [("missing", None)]:
                 kw = {"b": "t"} if tag == "missing" else {"a": val, "b": "t"}
@@ -1190,6 +1248,18 @@ def run_struct_case(case):
                 except Exception as e:  # pylint: disable=broad-except
                     beh[tag] = "raised " + err_name(e)
             res["beh"] = beh
+            if case.get("kind") == "mutable" and "a" in res["fields"]:
+                # the default is handed out per instance (mutating one instance's value must not leak)
+                try:
+                    x1 = K(b="t")
+                    first = json.dumps(Serializer(x1).serialize(), sort_keys=True, default=repr)
+                    if hasattr(x1.a, "append"):
+                        x1.a.append(99)
+                    elif isinstance(x1.a, dict):
+                        x1.a["zz"] = 99
+                    res["beh"]["default"] = [first, json.dumps(Serializer(K(b="t")).serialize(), sort_keys=True, default=repr)]
+                except Exception as e:  # pylint: disable=broad-except
+                    res["beh"]["default"] = "raised " + err_name(e)
             if case["factory"] and "a" in res["fields"]:
                 try:
                     x1, x2 = K(b="t"), K(b="t")
@@ -1647,7 +1717,9 @@ def oracle(case, impl, model):
             have_def = {n: x for n, x in iv["cls"]["defaults"]}
             for f, mf in zip(v["fields"], mv["fields"]):
                 m = mf["meaning"]
-                if not mf["supported"] or "err" in m or "dropped" in m:
+                if not mf["supported"] and mf.get("flat"):
+                    m = mf["flat"]       # directly nested Union / Optional: the flattened meaning (C13.elabField_flatten)
+                elif not mf["supported"] or "err" in m or "dropped" in m:
                     continue
                 ffeats = features(v, f, mf["annLen"])
                 nm = f["name"]
@@ -1690,6 +1762,17 @@ def tags(case, impl, model):
         if v["future"]:
             out.append("future_variant")
             break
+    if model and "out" in model:
+        if any(mf.get("flat") for mv in model["out"]["variants"] for mf in mv["fields"]):
+            out.append("flattened_union_meaning_checked")
+    for _, m in case["meanings"]:
+        js = json.dumps(m)
+        if '"struct"' in js:
+            out.append("structure_class_field")
+        if '"tup"' in js:
+            out.append("two_tuple")
+    if any(v.get("required") is not None for v in case["variants"]):
+        out.append("explicit_required")
     return out
 
 
